@@ -492,24 +492,25 @@ def _retag(r, prop, rule):
 
 
 def run(ctx):
+    S = ctx.soft
     from .c01 import rule_render
     from .c04 import rule_quote as c04_quote
-    rs = [rule_tags(ctx), rule_quote(ctx), rule_refs(ctx),
-          _retag(rule_render(ctx), 'C09', 'C09.render'),
-          _retag(c04_quote(ctx), 'C09', 'C09.ids')]
+    rs = [S(rule_tags, ctx), S(rule_quote, ctx), S(rule_refs, ctx),
+          _retag(S(rule_render, ctx), 'C09', 'C09.render'),
+          _retag(S(c04_quote, ctx), 'C09', 'C09.ids')]
     from .modelstate import rule_emptied
-    rs.append(rule_emptied(ctx, 'C09', 'C09.source', ops=('to_dict',)))
+    rs.append(S(rule_emptied, ctx, 'C09', 'C09.source', ops=('to_dict',)))
     from .common import rule_memo, rule_cachekey
-    ck = rule_cachekey(ctx, 'C09', 'C09.cachekey', [EXCEL, 'formulas/cell.py'])
+    ck = S(rule_cachekey, ctx, 'C09', 'C09.cachekey', [EXCEL, 'formulas/cell.py'])
     ck.floor = 0
     if not ck.instances:
         ck.instances = 1
         ck.ok('import/export keep no hand-written cache of compiled cells',
               EXCEL, nontrivial=False)
     rs.append(ck)
-    rs.append(rule_fallback(ctx))
+    rs.append(S(rule_fallback, ctx))
     pr = ctx.project
-    rs.append(rule_memo(ctx, 'C09', 'C09.memo', [], roots=[
+    rs.append(S(rule_memo, ctx, 'C09', 'C09.memo', [], roots=[
         pr.func(EXCEL, 'ExcelModel.to_dict'),
         pr.func(EXCEL, 'ExcelModel.from_dict')]))
     return rs
